@@ -39,7 +39,9 @@ class ACMRequestHandlers(USBRequestHandler):
         # Class request handlers.
         #
 
-        with m.If(setup.type == USBRequestType.CLASS):
+        # (SET_LINE_CODING is a host-to-device request; a device-to-host request with the
+        # same request number isn't ours, and is left to be stalled.)
+        with m.If((setup.type == USBRequestType.CLASS) & ~setup.is_in_request):
             with m.Switch(setup.request):
 
                 # SET_LINE_CODING: The host attempts to tell us how it wants serial data
